@@ -16,11 +16,16 @@ type propertyReference struct {
 	at        at
 	strict    bool
 	primitive *Value // the base value itself when it is a primitive and base is its wrapper (8.7)
+	noThis    bool   // made by an object environment record that does not provide this (the global one)
 }
 
 // thisValue is the this value of a call made through the reference
 // (11.2.3 step 6.a.i, GetBase(ref)): a primitive base is passed as it is.
 func (pr *propertyReference) thisValue() Value {
+	if pr.noThis {
+		// ImplicitThisValue of the global environment record is undefined (10.2.1.2.6, 11.2.3 step 6.b).
+		return Value{}
+	}
 	if pr.primitive != nil {
 		return *pr.primitive
 	}
